@@ -152,6 +152,8 @@ var reflectKindReq = map[string][]int64{
 	"MapIndex":    {rkMap},
 	"MapKeys":     {rkMap},
 	"MapRange":    {rkMap},
+	"Convert":     {-1}, // needs CanConvert(target)
+	"Addr":        {-2}, // needs CanAddr()
 	"Key":         {rkMap},                                       // reflect.Type.Key
 	"TypeElem":    {rkArray, rkChan, rkMap, rkPointer, rkSlice}, // reflect.Type.Elem
 }
@@ -346,6 +348,22 @@ func checkC06(P *Prog, r *Result) {
 						r.ok("C06/panic-site", c, pos, "reflect."+m+" on the destination / schema value (configuration)")
 						continue
 					}
+					if m == "Convert" {
+						if P.guardedByCall(b, "CanConvert", s.operand, true) || P.typeEqualityGuard(b, s.operand) {
+							r.ok("C06/panic-site", c, pos, "Convert is guarded by CanConvert (or a type identity test)")
+						} else {
+							r.bad("C06/panic-site", c, pos, fmt.Sprintf("reflect.Value.Convert on a value derived from input data [%s] without CanConvert: equal kinds do not imply convertibility (a map with a named key or element type panics)", via))
+						}
+						continue
+					}
+					if m == "Addr" {
+						if P.guardedByCall(b, "CanAddr", s.operand, true) {
+							r.ok("C06/panic-site", c, pos, "Addr is guarded by CanAddr")
+						} else {
+							r.bad("C06/panic-site", c, pos, "reflect.Value.Addr on a value derived from input data without CanAddr")
+						}
+						continue
+					}
 					is, _ := P.kindFacts(b, s.operand)
 					okKind := false
 					for _, k := range reflectKindReq[m] {
@@ -371,6 +389,9 @@ func checkC06(P *Prog, r *Result) {
 	}
 	// nil provider (shared with C15)
 	P.checkProviderNonNil(r, "C06/nil-provider")
+	// the two assumptions the site rule relies on, as obligations of their own
+	P.checkCoercerResultTypes(r, "C06/coercer-contract")
+	P.checkPooledSliceHeader(r, "C06/pooled-slice-capacity")
 	r.Extra["sites_by_kind"] = counts
 	total := 0
 	for _, v := range counts {
@@ -991,4 +1012,22 @@ func (P *Prog) paramValidAtCallSites(rv ssa.Value, depth int) bool {
 		})
 	}
 	return n > 0 && okAll
+}
+
+// typeEqualityGuard: b is dominated by `rv.Type() == X` (true).
+func (P *Prog) typeEqualityGuard(b *ssa.BasicBlock, rv ssa.Value) bool {
+	for _, gd := range guardsOf(b) {
+		bo, ok := gd.If.Cond.(*ssa.BinOp)
+		if !ok || !((bo.Op == token.EQL && gd.True) || (bo.Op == token.NEQ && !gd.True)) {
+			continue
+		}
+		for _, side := range []ssa.Value{bo.X, bo.Y} {
+			if c, ok := side.(*ssa.Call); ok {
+				if ci := callOf(c); ci.static != nil && ci.static.Name() == "Type" && isPkgFunc(ci.static, "reflect") && sameReflectValue(c.Call.Args[0], rv) {
+					return true
+				}
+			}
+		}
+	}
+	return false
 }
